@@ -164,6 +164,7 @@ func attrOf(i int) uint32 {
 
 func generate() {
 	genMarks()
+	genConf()
 	genExhaustiveScores() // built-in default location
 	// the site's TIME_LOCATION through the real configuration path; the oracle compares the time of every
 	// accepted line with its own clock in the configured location
@@ -237,6 +238,43 @@ func genReindex() {
 	execLine("redir zz")
 	execLine("redir")
 	execLine("zone Mars/Olympus")
+}
+
+// genConf: the comment path under a site configuration set through the real path (viper + ptttype.InitConfig): every
+// switch of confKeys is flipped away from its default and back; under each setting a boo and an arrow are posted —
+// the line must carry the type mark unless the site asked for the old layout under the key OLDRECOMMEND.
+func genConf() {
+	keys := []string{"GUESTRECOMMEND", "PLAY_ANGEL", "USE_AUTOCPLOG", "DEFAULT_AUTOCPLOG", "NOKILLWATERBALL", "ALL_REEDIT_LOG",
+		"MULTI_WELCOME_LOGIN", "BMCHS", "USE_EDIT_HISTORY", "USE_COMMENTD", "EDITPOST_SMARTMERGE", "OLDRECOMMEND"}
+	b := func(x bool) string {
+		if x {
+			return "1"
+		}
+		return "0"
+	}
+	for ki, k := range keys {
+		def := *confKeys[k]
+		var dir []byte
+		for j := 0; j < 4; j++ {
+			dir = append(dir, mkRec(artName('M', j), int8(j), 0, j)...)
+		}
+		execLine(resetLine(attrOf(ki%8), false, ki%2 == 0, []byte("header\n\nbody\n--\n"), dir))
+		execLine("conf " + k + " " + b(!def))
+		uid := userIDs[ki%len(userIDs)]
+		for j, t := range []int{2, 3, 1, 2} {
+			if j == 2 {
+				execLine("conf " + k + " " + b(def))
+			}
+			execLine(commentLine("ptt", "sysop", userArr(uid, nil), artName('M', j), t, randText(12), ipArr(ips[j%len(ips)])))
+		}
+	}
+	execLine("conf OLDRECOMMEND 1") // two settings at once, then back to the defaults
+	execLine("conf GUESTRECOMMEND 1")
+	execLine("conf OLDRECOMMEND 0")
+	execLine("conf GUESTRECOMMEND 0")
+	execLine("conf EDITPOST_SMARTMERGE 1")
+	execLine("conf NOSUCHKEY 1") // malformed
+	execLine("conf OLDRECOMMEND 2")
 }
 
 func genMarks() {
